@@ -161,7 +161,7 @@ class _VersionIndependentUnmarshaller:
 
         self.internStrings = []
         self.internObjects = []
-        self.version_tuple = tuple()
+        self.version_tuple = version
         self.is_graal = False
         self.is_pypy = False
 
@@ -375,7 +375,7 @@ class _VersionIndependentUnmarshaller:
         if PYTHON_VERSION_TRIPLE >= (3, 0) and self.version_tuple < (3, 0):
             string = UnicodeForPython3(unicodestring)
         else:
-            string = unicodestring.decode()
+            string = unicodestring.decode("utf-8", "surrogatepass")
 
         return self.r_ref(string, save_ref)
 
